@@ -11,6 +11,9 @@ import WzVerif.Lemmas.RoutingTop
 import WzVerif.Lemmas.RoutingPriority
 import WzVerif.Lemmas.RoutingRedirect
 import WzVerif.Gen.RoutingSamples
+import WzVerif.Gen.RoutingParts
+import WzVerif.Gen.RoutingGlue
+import WzVerif.Model.RoutingParts
 namespace Wz.Props.C03
 open Wz Wz.Routing
 
@@ -54,6 +57,71 @@ newline is never swallowed by the anchor (`\Z`, not `$`). -/
 theorem part_anchor_matches_model :
     Gen.RoutingSamples.anchorProbes.all (fun (c, post, target, live) =>
       (matchDyn [] c.kind post.toList false target.toList).isSome == live) = true := by
+  decide +kernel
+
+/-- the regex text of a part depends on the converter through its `RKind` only -/
+theorem kind_regex_text (c : Conv) : c.kind.regexText = c.regexText := by
+  cases c with
+  | string mn mx ln => cases ln <;> rfl
+  | _ => rfl
+
+/-- **part_table_matches_model.** `Rule._parse_rule` / `compile` of the current source, run on sample rules
+covering the property's grammar (literal and decorated variable segments, every converter class, path
+converter final / with tail / branch, doubled slashes with merge_slashes on), yields exactly the parts
+the model's `parseRule` computes: same number of parts, same `content` regex text (escaping, group
+name, `(?<!/)(/?)` suffix, `\Z` anchor), same `final` / `static` / `suffixed` flags and the same `Weighting`
+(number and list of static weights, number and list of argument weights). -/
+theorem part_table_matches_model :
+    Gen.RoutingParts.parts.all (fun (mg, toks, rows) =>
+      (parseRule (if mg then mergeSlashToks toks else toks)).map (fun r => r.1.map Part.row) == some rows) = true := by
+  decide +kernel
+
+/-- **merge_regex_matches_model.** Every slash-merging `re.sub` of the routing sources uses the literal
+`/{2,}?` (lazy: pairs of slashes, left to right), and on the sample paths the live `re.sub` gives what
+the model's `mergeSlashes` computes. -/
+theorem merge_regex_matches_model :
+    Gen.RoutingParts.merges.all (fun (lit, s, out) =>
+      lit == "/{2,}?" && String.ofList (mergeSlashes s.toList) == out) = true ∧
+    Gen.RoutingParts.merges.length = 12 := by
+  decide +kernel
+
+/-- **match_skeleton_pinned.** The control skeleton of the inner `_match` of `StateMachineMatcher.match` in the
+current source — every branching condition, loop header, `raise` and `return`, in order — is the one the
+model's `dfs` / `scanRules` / `slashCheck` transcribe: the exact-match loop tests the method set, then the
+websocket flag; the "would match with an additional slash" probe requires the websocket flag AND the
+method set (`ruleOK`) before `strict_slashes` decides between `SlashRequired` and a match; static
+transitions before dynamic ones; the `parts == [""]` fallback skips strict rules. -/
+theorem match_skeleton_pinned :
+    Gen.RoutingGlue.matchSkeleton =
+      ["if parts == []",
+       "for rule in state.rules",
+       "if rule.methods is not None and method not in rule.methods",
+       "if rule.websocket != websocket",
+       "return (rule, values)",
+       "if '' in state.static",
+       "for rule in state.static[''].rules",
+       "if websocket == rule.websocket and (rule.methods is None or method in rule.methods)",
+       "if rule.strict_slashes",
+       "raise SlashRequired()",
+       "return (rule, values)",
+       "return None",
+       "if part in state.static",
+       "if rv is not None",
+       "return rv",
+       "for (test_part, new_state) in state.dynamic",
+       "if test_part.final",
+       "if match is not None",
+       "if test_part.suffixed",
+       "if suffix == '/'",
+       "if rv is not None",
+       "return rv",
+       "if parts == ['']",
+       "for rule in state.rules",
+       "if rule.strict_slashes",
+       "if rule.methods is not None and method not in rule.methods",
+       "if rule.websocket != websocket",
+       "return (rule, values)",
+       "return None"] := by
   decide +kernel
 
 /-- `.` (the path converter's `.*?`) rejects exactly LF in the live `re`. -/
@@ -705,13 +773,15 @@ theorem insertion_order_irrelevant_full_false :
       omega
 
 -- OPEN (P1): insertion_order_irrelevant at full strength — "for rule lists that are permutations of each
--- other and have pairwise distinct part keys where they overlap, `matchSM` is equal". Proved above, for
--- arbitrary permutations of the insertion order: the search is `None` for one order iff for the other
--- (hence NotFound / 405 by the characterisations, which mention membership only), and a found rule
--- and its groups are the same whenever the specificity order decides between the directly admitting
--- rules (strict rules). Missing: deriving that decisiveness from "pairwise distinct part keys"
--- (two different parts of equal weight are a genuine tie that insertion order breaks:
--- `insertion_order_irrelevant_full_false`), the non-strict admission forms, and the
--- bookkeeping that `mkMap` numbers rules by position.
+-- other and have pairwise distinct part keys where they overlap, `matchSM` is equal". As stated it is FALSE
+-- (`insertion_order_irrelevant_full_false`: two different parts of equal weight are a genuine tie that insertion
+-- order breaks). Proved above, for arbitrary permutations of the insertion order: the search is `None` for one
+-- order iff for the other (hence NotFound / 405 by the characterisations, which mention membership only), and a
+-- found rule and its groups are the same whenever the specificity order decides between the directly admitting
+-- rules (strict rules). Still missing: that one order cannot answer `SlashRequired` where the other finds a rule
+-- (needs a priority lemma for the slash probe's position in the depth-first order, the analogue of `dfs_priority`),
+-- the non-strict admission forms, and the bookkeeping that `mkMap` numbers rules by position.
+-- Round 3 adds the orthogonal half of "independent of insertion order": the weight sort itself is in force whenever
+-- a thread reads the matcher (`Props/C03L.lean`, all interleavings of `Map.update` / `Map.add`).
 
 end Wz.Props.C03
